@@ -1,9 +1,547 @@
 import SasLexer.Spec.Basic
-/-! # C06 — dump-level specification (STUB, being written) -/
+import SasLexer.Chars
+/-!
+# C06 — a token's text has the lexical shape its type and channel promise (specification)
+
+`Spec.C06 s d` evaluates, for every token of the dump `d` of source `s`, the per-type shape
+table of DESIGN.md §7.1 on the token's raw text (the chars between its byte offset and the
+next token's byte offset), then the channel partition and the emptiness rule.  The verdict
+is the list of violated clauses, one clause name per row family of the table:
+
+`token-text` (raw text not sliceable: tokens do not tile the source), `no-row` (a token type
+without a table row), `virtual`, `ws`, `catch-all`, `semi`, `amp`, `symbol`, `keyword`,
+`numeric-shape`, `quoted-literal`, `string-expr`, `cstyle-comment`, `predicted-comment`,
+`macro-comment`, `datalines`, `char-format`, `macro-var-resolve`, `macro-var-term`,
+`macro-string`, `macro-label`, `macro-identifier`, `kwm`, `identifier`,
+`channel-partition`, `empty-token`.
+
+Notation of the table: `ws` = `isWhitespace`; `name` = (`_` | XID_Start) XID_Continue*;
+`ci` = equality after ASCII upper-casing.  "Error `K` at `b`" = some error of kind `K` whose
+byte offset is `b`; "end of input" = byte offset `utf8Len s`.
+
+Readings chosen where the table leaves a choice (always the weakest one):
+* `MacroSep` "only with `macro_sep`": the dump does not carry the build configuration, so
+  only "empty, DEFAULT channel" is stated here.
+* an error "names" a token = it is reported at the token's end offset.
+* a `FloatLiteral`/`FloatExponentLiteral` named by `InvalidNumericLiteral` only has to be a
+  non-empty run of numeric-literal characters (`malformedNumeric`); its exact extent and
+  every float value are C08's subject.  Decimal notation includes the all-digit spelling
+  (an integer too large for `u64` is a `FloatLiteral`, §7.2).
+* `MacroLabel` "next non-hidden token is HIDDEN `COLON`" is read as in C10: the next token,
+  skipping HIDDEN `WS` and COMMENT-channel tokens, is a `COLON` on the HIDDEN channel.
+* the shapes of the types that may be empty accept the empty text; whether an empty token
+  is licensed is the separate clause `empty-token`.
+* "the `LPAREN`/`RPAREN` of a `%str/%nrstr`": the `LPAREN` that directly follows
+  `KwmStr`/`KwmNrStr` (skipping HIDDEN `WS` and COMMENT-channel tokens) must be HIDDEN; any
+  HIDDEN `LPAREN` must belong to an earlier `%str/%nrstr` keyword that has not got its `(`
+  yet (counting; that it follows its keyword *directly* is C10 `builtin-lparen`, not C06);
+  a HIDDEN `RPAREN` is one that closes a still open HIDDEN `LPAREN` (more HIDDEN `LPAREN`s
+  than HIDDEN `RPAREN`s before it).
+-/
 namespace SasLexer
 namespace Spec
+namespace C06
 
-def C06 (_s : List Char) (_d : Dump) : Verdict := ["unimplemented"]
+/-- a token together with its extent and raw text -/
+structure Tok where
+  ty : TokenType
+  chan : Channel
+  payload : Payload
+  byte : Nat
+  stop : Nat
+  text : List Char
+  deriving Repr, Inhabited
+
+/-- raw text of token `i` = source between `tok[i].byte` and `tok[i+1].byte`; the last token
+extends to the end of the source -/
+def toksOf (s : List Char) : List TokInfo → Option (List Tok)
+  | a :: b :: r => do
+    let txt ← Lexer.sliceBytes? s a.byte b.byte
+    let rest ← toksOf s (b :: r)
+    pure (⟨a.ty, a.chan, a.payload, a.byte, b.byte, txt⟩ :: rest)
+  | [a] => do
+    let n := utf8Len s
+    let txt ← Lexer.sliceBytes? s a.byte n
+    pure [⟨a.ty, a.chan, a.payload, a.byte, n, txt⟩]
+  | [] => some []
+
+/-! ## character-level helpers -/
+
+def upper (t : List Char) : String := String.ofList (t.map toUpperAscii)
+
+/-- `ci` -/
+def ciEq (t : List Char) (k : String) : Bool := upper t == k
+
+/-- `name` = (`_` | XID_Start) XID_Continue* -/
+def isName : List Char → Bool
+  | c :: r => isUnicodeNameStart c && r.all isXidContinue
+  | [] => false
+
+def allDigits (t : List Char) : Bool := t.all isAsciiDigit
+def digits1 (t : List Char) : Bool := !t.isEmpty && t.all isAsciiDigit
+
+def digitVal (c : Char) : Nat :=
+  if isAsciiDigit c then c.toNat - 48
+  else if 'a' ≤ c && c ≤ 'f' then c.toNat - 87
+  else if 'A' ≤ c && c ≤ 'F' then c.toNat - 55 else 0
+
+/-- value of a digit string in the given base -/
+def valueOf (base : Nat) (t : List Char) : Nat := t.foldl (fun acc c => acc * base + digitVal c) 0
+
+/-- text with every occurrence of the quote `q` doubled -/
+def onlyDoubled (q : Char) : List Char → Bool
+  | [] => true
+  | [c] => c != q
+  | c :: c' :: r => if c == q then c' == q && onlyDoubled q r else onlyDoubled q (c' :: r)
+
+/-- body of a quoted literal after its opening quote `q`: skip doubled quotes; `some rest` =
+what follows the first lone `q` (the closing quote), `none` = no closing quote -/
+def afterClosing (q : Char) : List Char → Option (List Char)
+  | [] => none
+  | [c] => if c == q then some [] else none
+  | c :: c' :: r =>
+    if c == q then (if c' == q then afterClosing q r else some (c' :: r)) else afterClosing q (c' :: r)
+
+/-- what follows the first `*/`, if any -/
+def afterStarSlash : List Char → Option (List Char)
+  | [] => none
+  | [_] => none
+  | c :: c' :: r => if c == '*' && c' == '/' then some r else afterStarSlash (c' :: r)
+
+/-- macro comment body: what follows the first `;` that is outside quotes (`'…'` and `"…"`
+open and close alternately; `q` = the currently open quote) -/
+def afterSemiOutsideQuotes : Option Char → List Char → Option (List Char)
+  | _, [] => none
+  | none, c :: r =>
+    if c == ';' then some r
+    else if c == '\'' || c == '"' then afterSemiOutsideQuotes (some c) r
+    else afterSemiOutsideQuotes none r
+  | some q, c :: r => if c == q then afterSemiOutsideQuotes none r else afterSemiOutsideQuotes (some q) r
+
+/-! ## the rows -/
+
+/-- spellings of the symbol token types (`lex_symbols`, `lex_macro_eval_operator`; comments of
+`token_type.rs`) -/
+def symbolSpellings : TokenType → Option (List String)
+  | .PERCENT => some ["%"]
+  | .LPAREN => some ["("]
+  | .RPAREN => some [")"]
+  | .LCURLY => some ["{"]
+  | .RCURLY => some ["}"]
+  | .LBRACK => some ["["]
+  | .RBRACK => some ["]"]
+  | .STAR => some ["*"]
+  | .EXCL => some ["!"]
+  | .EXCL2 => some ["!!"]
+  | .BPIPE => some ["¦"]
+  | .BPIPE2 => some ["¦¦"]
+  | .PIPE2 => some ["||"]
+  | .STAR2 => some ["**"]
+  | .NOT => some ["¬", "^", "~", "∘"]
+  | .FSLASH => some ["/"]
+  | .PLUS => some ["+"]
+  | .MINUS => some ["-"]
+  | .GTLT => some ["><"]
+  | .LTGT => some ["<>"]
+  | .LT => some ["<"]
+  | .LE => some ["<="]
+  | .NE => some ["¬=", "^=", "~=", "∘="]
+  | .GT => some [">"]
+  | .GE => some [">="]
+  | .SoundsLike => some ["=*"]
+  | .PIPE => some ["|"]
+  | .DOT => some ["."]
+  | .COMMA => some [","]
+  | .COLON => some [":"]
+  | .ASSIGN => some ["="]
+  | .DOLLAR => some ["$"]
+  | .AT => some ["@"]
+  | .HASH => some ["#"]
+  | .QUESTION => some ["?"]
+  | _ => none
+
+/-- the symbol types that `ExpectSymbol` may supply as a zero-width virtual token -/
+def expectable (ty : TokenType) : Bool :=
+  ty == .LPAREN || ty == .RPAREN || ty == .ASSIGN || ty == .COMMA || ty == .FSLASH
+
+/-- a spelling may carry the macro-expression quoting prefix `%` when it starts with `~ ^ =` -/
+def quotable (sp : List Char) : Bool :=
+  match sp with
+  | c :: _ => c == '~' || c == '^' || c == '='
+  | [] => false
+
+def symbolShape (ty : TokenType) (spellings : List String) (t : List Char) : Bool :=
+  (t.isEmpty && expectable ty)
+  || spellings.any fun sp =>
+      let sp := sp.toList
+      t == sp || (quotable sp && t == '%' :: sp)
+
+/-- characters that start some other open-code token (so are never a `CatchAll`) -/
+def startsOpenCodeToken (c : Char) : Bool :=
+  isWhitespace c || isUnicodeNameStart c || isAsciiDigit c
+  || "'\";/&%*(){}[]!¦|¬^~∘+-<>.,:=$@#?".toList.contains c
+
+/-- `ci` one of the keys that the generated table maps to this type -/
+def spellsKeyword (tbl : List (String × TokenType)) (ty : TokenType) (t : List Char) : Bool :=
+  tbl.any fun (k, ty') => ty' == ty && ciEq t k
+
+def isKwType (ty : TokenType) : Bool := TokenType.KEYWORDS.any (·.2 == ty)
+def isKwmType (ty : TokenType) : Bool := TokenType.MKEYWORDS.any (·.2 == ty)
+
+/-- suffix of the typed quoted literals and of their string-expression ends (upper-cased) -/
+def literalSuffix : TokenType → Option String
+  | .BitTestingLiteral | .BitTestingLiteralExprEnd => some "B"
+  | .DateLiteral | .DateLiteralExprEnd => some "D"
+  | .DateTimeLiteral | .DateTimeLiteralExprEnd => some "DT"
+  | .NameLiteral | .NameLiteralExprEnd => some "N"
+  | .TimeLiteral | .TimeLiteralExprEnd => some "T"
+  | .HexStringLiteral | .HexStringLiteralExprEnd => some "X"
+  | _ => none
+
+def datalinesWords : List String := ["DATALINES", "CARDS", "LINES", "DATALINES4", "CARDS4", "LINES4"]
+
+/-- `D* (. D*)?` with at least one digit -/
+def mantissa (t : List Char) : Bool :=
+  let i := t.takeWhile isAsciiDigit
+  match t.drop i.length with
+  | [] => !i.isEmpty
+  | c :: f => c == '.' && allDigits f && (!i.isEmpty || !f.isEmpty)
+
+/-- mantissa `[eE] [+-]? D+` -/
+def exponentForm (t : List Char) : Bool :=
+  let m := t.takeWhile fun c => c != 'e' && c != 'E'
+  match t.drop m.length with
+  | _ :: x =>
+    mantissa m && (match x with
+      | c :: r => if c == '+' || c == '-' then digits1 r else digits1 x
+      | [] => false)
+  | [] => false
+
+/-- `[0-9][0-9A-Fa-f]*` -/
+def hexBody : List Char → Bool
+  | c :: r => isAsciiDigit c && r.all isAsciiHexDigit
+  | [] => false
+
+/-- text of a numeric token that carries a numeric error: a non-empty run of numeric-literal
+characters starting with a digit or `.` (the exact extent is C08's subject) -/
+def malformedNumeric : List Char → Bool
+  | c :: r => (isAsciiDigit c || c == '.')
+      && r.all fun c => isAsciiHexDigit c || c == '.' || c == '+' || c == '-' || c == 'x' || c == 'X'
+  | [] => false
+
+/-- context of one token: source length, errors, and the neighbouring tokens -/
+structure Ctx where
+  n : Nat
+  errs : List ErrInfo
+  /-- the tokens before this one, nearest first -/
+  before : List Tok
+  /-- the tokens after this one -/
+  after : List Tok
+
+def Ctx.errAt (c : Ctx) (k : ErrorKind) (b : Nat) : Bool := c.errs.any fun e => e.kind == k && e.byte == b
+
+/-- tokens that may separate a construct's tokens: HIDDEN `WS` and COMMENT-channel tokens -/
+def skippable (t : Tok) : Bool := (t.ty == .WS && t.chan == .HIDDEN) || t.chan == .COMMENT
+
+def nextSignificant (l : List Tok) : Option Tok := (l.dropWhile skippable).head?
+def prevTy (c : Ctx) : Option TokenType := c.before.head?.map (·.ty)
+def nextTy (c : Ctx) : Option TokenType := c.after.head?.map (·.ty)
+
+/-- numeric rows -/
+def numericShape (c : Ctx) (t : Tok) : Bool :=
+  let txt := t.text
+  let invalid := c.errAt .InvalidNumericLiteral t.stop
+  match t.ty with
+  | .IntegerLiteral =>
+    -- `[0-9]+`, payload = value
+    (digits1 txt && t.payload == .int (valueOf 10 txt))
+    -- `[0-9][0-9A-Fa-f]*[xX]`, payload = hex value
+    || (match txt.getLast? with
+        | some x => (x == 'x' || x == 'X') && hexBody txt.dropLast && t.payload == .int (valueOf 16 txt.dropLast)
+        | none => false)
+    -- the `x` may be missing iff `UnterminatedHexNumericLiteral` names the token
+    || (hexBody txt && c.errAt .UnterminatedHexNumericLiteral t.stop && t.payload == .int (valueOf 16 txt))
+  | .FloatLiteral =>
+    (match t.payload with | .float _ => true | _ => false)
+    && (mantissa txt || (invalid && malformedNumeric txt))
+  | .FloatExponentLiteral =>
+    (match t.payload with | .float _ => true | _ => false)
+    && (exponentForm txt || (invalid && malformedNumeric txt))
+  | _ => false
+
+/-- quoted-literal rows: `StringLiteral` and the six typed literals -/
+def quotedLiteralShape (c : Ctx) (t : Tok) : Bool :=
+  match t.text with
+  | q :: body =>
+    (q == '\'' || q == '"')
+    && (match afterClosing q body, literalSuffix t.ty with
+        -- plain literal: nothing after the closing quote
+        | some rest, none => rest.isEmpty
+        -- typed literal: terminated + suffix (`ci`)
+        | some rest, some sfx => ciEq rest sfx
+        -- the closing quote may be missing iff `UnterminatedStringLiteral` at end of input
+        | none, none => t.stop == c.n && c.errAt .UnterminatedStringLiteral c.n
+        | none, some _ => false)
+  | [] => false
+
+/-- string-expression rows -/
+def stringExprShape (c : Ctx) (t : Tok) : Bool :=
+  match t.ty with
+  | .StringExprStart => t.text == ['"']
+  | .StringExprText => !t.text.isEmpty && onlyDoubled '"' t.text
+  | .StringExprEnd =>
+    t.text == ['"']
+    -- the unterminated tail of the string expression (possibly empty)
+    || (t.stop == c.n && c.errAt .UnterminatedStringLiteral c.n && onlyDoubled '"' t.text)
+  | ty =>
+    match t.text, literalSuffix ty with
+    | q :: rest, some sfx => q == '"' && ciEq rest sfx
+    | _, _ => false
+
+def semiShape (c : Ctx) (t : Tok) : Bool :=
+  t.text == [';']
+  || (t.text == ";;;;".toList && prevTy c == some .DatalinesData)
+  -- after `DatalinesData` with `UnterminatedDatalines`: a possibly empty run of ≤ 3 `;`
+  || (prevTy c == some .DatalinesData && c.errAt .UnterminatedDatalines t.byte
+      && t.text.all (· == ';') && t.text.length ≤ 3)
+  -- other empty `SEMI`s: see `empty-token`
+  || t.text.isEmpty
+
+def datalinesShape (c : Ctx) (t : Tok) : Bool :=
+  match t.ty with
+  | .DatalinesStart =>
+    -- `ci` datalines word, then `ws`*, then `;`
+    let w := t.text.takeWhile isIdentContinue
+    datalinesWords.any (ciEq w ·)
+    && (match (t.text.drop w.length).dropWhile isWhitespace with | [x] => x == ';' | _ => false)
+  | .DatalinesData => nextTy c == some .SEMI      -- any text; followed by `SEMI`
+  | _ => false
+
+/-- `$` `name`? `[0-9]`* `.` `[0-9]`* -/
+def charFormatShape (t : List Char) : Bool :=
+  match t with
+  | '$' :: r =>
+    let r := match r with
+      | c :: r' => if isUnicodeNameStart c then r'.dropWhile isXidContinue else r
+      | [] => r
+    match r.dropWhile isAsciiDigit with
+    | '.' :: p => allDigits p
+    | _ => false
+  | _ => false
+
+def cstyleShape (c : Ctx) (t : Tok) : Bool :=
+  match t.text with
+  | '/' :: '*' :: body =>
+    (match afterStarSlash body with
+     | some rest => rest.isEmpty           -- ends `*/` and contains no earlier `*/`
+     | none => t.stop == c.n && c.errAt .UnterminatedComment c.n)
+  | _ => false
+
+def predictedCommentShape (c : Ctx) (t : Tok) : Bool :=
+  match t.text with
+  | '*' :: body =>
+    (match body.dropWhile (· != ';') with
+     | _ :: rest => rest.isEmpty           -- exactly one `;`, last
+     | [] => t.stop == c.n)                -- none: runs to end of input
+  | _ => false
+
+def macroCommentShape (c : Ctx) (t : Tok) : Bool :=
+  match t.text with
+  | '%' :: '*' :: body =>
+    (match afterSemiOutsideQuotes none body with
+     | some rest => rest.isEmpty           -- ends with the first `;` outside quotes
+     | none => t.stop == c.n)              -- or runs to end of input
+  | _ => false
+
+def macroVarResolveShape (t : Tok) : Bool :=
+  match t.payload with
+  | .int k => t.text.all (· == '&') && t.text.length == 2 ^ k
+  | _ => false
+
+/-- `%` `name` -/
+def percentName (t : List Char) : Option (List Char) :=
+  match t with
+  | '%' :: nm => if isName nm then some nm else none
+  | _ => none
+
+def macroLabelShape (c : Ctx) (t : Tok) : Bool :=
+  (percentName t.text).isSome
+  && (match nextSignificant c.after with
+      | some x => x.ty == .COLON && x.chan == .HIDDEN
+      | none => false)
+
+def macroIdentifierShape (t : Tok) : Bool :=
+  match percentName t.text with
+  | some nm => !(TokenType.MKEYWORDS.any fun (k, _) => ciEq nm k)
+  | none => false
+
+def kwmShape (t : Tok) : Bool :=
+  match t.text with
+  | '%' :: kw => spellsKeyword TokenType.MKEYWORDS t.ty kw
+  | _ => false
+
+/-- `name`, ASCII part restricted to `[A-Za-z0-9_]` -/
+def identifierShape (t : List Char) : Bool :=
+  match t with
+  | c :: r => isUnicodeNameStart c && r.all isIdentContinue
+  | [] => false
+
+/-- the row families of the table (= clause names) -/
+inductive Family where
+  | virtual | ws | catchAll | semi | amp | symbol | keyword | numeric | quotedLiteral | stringExpr
+  | cstyleComment | predictedComment | macroComment | datalines | charFormat | macroVarResolve
+  | macroVarTerm | macroString | macroLabel | macroIdentifier | kwm | identifier
+  deriving DecidableEq, Repr, Inhabited
+
+def Family.name : Family → String
+  | .virtual => "virtual" | .ws => "ws" | .catchAll => "catch-all" | .semi => "semi" | .amp => "amp"
+  | .symbol => "symbol" | .keyword => "keyword" | .numeric => "numeric-shape"
+  | .quotedLiteral => "quoted-literal" | .stringExpr => "string-expr"
+  | .cstyleComment => "cstyle-comment" | .predictedComment => "predicted-comment"
+  | .macroComment => "macro-comment" | .datalines => "datalines" | .charFormat => "char-format"
+  | .macroVarResolve => "macro-var-resolve" | .macroVarTerm => "macro-var-term"
+  | .macroString => "macro-string" | .macroLabel => "macro-label"
+  | .macroIdentifier => "macro-identifier" | .kwm => "kwm" | .identifier => "identifier"
+
+/-- the table row of a token type; `none` = the type has no row (the table must be total:
+`∀ ty, (familyOf ty).isSome`) -/
+def familyOf : TokenType → Option Family
+  | .EOF | .MacroSep => some .virtual
+  | .WS => some .ws
+  | .CatchAll => some .catchAll
+  | .SEMI => some .semi
+  | .AMP => some .amp
+  | .IntegerLiteral | .FloatLiteral | .FloatExponentLiteral => some .numeric
+  | .StringLiteral | .BitTestingLiteral | .DateLiteral | .DateTimeLiteral | .NameLiteral
+  | .TimeLiteral | .HexStringLiteral => some .quotedLiteral
+  | .StringExprStart | .StringExprText | .StringExprEnd | .BitTestingLiteralExprEnd
+  | .DateLiteralExprEnd | .DateTimeLiteralExprEnd | .NameLiteralExprEnd | .TimeLiteralExprEnd
+  | .HexStringLiteralExprEnd => some .stringExpr
+  | .CStyleComment => some .cstyleComment
+  | .PredictedCommentStat => some .predictedComment
+  | .MacroComment => some .macroComment
+  | .DatalinesStart | .DatalinesData => some .datalines
+  | .CharFormat => some .charFormat
+  | .MacroVarResolve => some .macroVarResolve
+  | .MacroVarTerm => some .macroVarTerm
+  | .MacroString | .MacroStringEmpty => some .macroString
+  | .MacroLabel => some .macroLabel
+  | .MacroIdentifier => some .macroIdentifier
+  | .Identifier => some .identifier
+  | ty =>
+    -- `PERCENT` … `QUESTION`: the types with a spelling table
+    if (symbolSpellings ty).isSome then some .symbol
+    -- `KwLT`…`KwNOT` and every other `Kw*`: the types of the generated `KEYWORDS` table
+    else if isKwType ty then some .keyword
+    -- `Kwm*`: the types of the generated `MKEYWORDS` table
+    else if isKwmType ty then some .kwm
+    else none
+
+/-- the shape column of the table -/
+def shape (c : Ctx) (t : Tok) : Family → Bool
+  | .virtual =>
+    if t.ty == .EOF then t.text.isEmpty && c.after.isEmpty           -- empty; last token
+    else t.text.isEmpty                                               -- `MacroSep`
+  | .ws => !t.text.isEmpty && t.text.all isWhitespace
+  | .catchAll => (match t.text with | [x] => !startsOpenCodeToken x | _ => false)
+  | .semi => semiShape c t
+  | .amp => !t.text.isEmpty && t.text.all (· == '&')
+  | .symbol => symbolShape t.ty ((symbolSpellings t.ty).getD []) t.text
+  -- `ci` one of the variant's generated keywords
+  | .keyword => spellsKeyword TokenType.KEYWORDS t.ty t.text
+  | .numeric => numericShape c t
+  | .quotedLiteral => quotedLiteralShape c t
+  | .stringExpr => stringExprShape c t
+  | .cstyleComment => cstyleShape c t
+  | .predictedComment => predictedCommentShape c t
+  | .macroComment => macroCommentShape c t
+  | .datalines => datalinesShape c t
+  | .charFormat => charFormatShape t.text
+  | .macroVarResolve => macroVarResolveShape t
+  | .macroVarTerm => t.text == ['.']
+  | .macroString => if t.ty == .MacroStringEmpty then t.text.isEmpty else !t.text.isEmpty
+  | .macroLabel => macroLabelShape c t
+  | .macroIdentifier => macroIdentifierShape t
+  -- `%` + (`ci` one of the variant's generated keywords)
+  | .kwm => kwmShape t
+  | .identifier => identifierShape t.text
+
+/-- the clause violated by one token, if any -/
+def rowViolation (c : Ctx) (t : Tok) : Option String :=
+  match familyOf t.ty with
+  | none => some "no-row"
+  | some f => if shape c t f then none else some f.name
+
+/-! ## channel partition -/
+
+def isCommentType (ty : TokenType) : Bool :=
+  ty == .CStyleComment || ty == .PredictedCommentStat || ty == .MacroComment
+
+def prevSignificantTy (c : Ctx) : Option TokenType := (nextSignificant c.before).map (·.ty)
+
+/-- number of still open HIDDEN `LPAREN`s before this token -/
+def openHiddenParens (c : Ctx) : Int :=
+  c.before.foldl (fun acc t =>
+    if t.chan == .HIDDEN && t.ty == .LPAREN then acc + 1
+    else if t.chan == .HIDDEN && t.ty == .RPAREN then acc - 1 else acc) 0
+
+/-- number of `%str/%nrstr` keywords before this token that have not yet got their HIDDEN `LPAREN` -/
+def unopenedStrCalls (c : Ctx) : Int :=
+  c.before.foldl (fun acc t =>
+    if t.ty == .KwmStr || t.ty == .KwmNrStr then acc + 1
+    else if t.chan == .HIDDEN && t.ty == .LPAREN then acc - 1 else acc) 0
+
+/-- the channel the table assigns to a token -/
+def channelOk (c : Ctx) (t : Tok) : Bool :=
+  if isCommentType t.ty then t.chan == .COMMENT                       -- COMMENT ⇔ comment type
+  else if t.ty == .WS || t.ty == .CatchAll || t.ty == .KwmStr || t.ty == .KwmNrStr then t.chan == .HIDDEN
+  else if t.ty == .COLON then                                         -- HIDDEN iff directly after a label
+    t.chan == (if prevSignificantTy c == some .MacroLabel then .HIDDEN else .DEFAULT)
+  else if t.ty == .LPAREN then
+    -- the `(` directly after `%str/%nrstr` is HIDDEN; a HIDDEN `(` belongs to an earlier
+    -- `%str/%nrstr` keyword that has not got one yet
+    if prevSignificantTy c == some .KwmStr || prevSignificantTy c == some .KwmNrStr then t.chan == .HIDDEN
+    else t.chan == .DEFAULT || (t.chan == .HIDDEN && unopenedStrCalls c > 0)
+  else if t.ty == .RPAREN then                                        -- HIDDEN only when it closes one
+    t.chan == .DEFAULT || (t.chan == .HIDDEN && openHiddenParens c > 0)
+  else t.chan == .DEFAULT
+
+/-! ## emptiness rule -/
+
+/-- only the designated types may be empty, each with its licensing condition -/
+def emptyOk (c : Ctx) (t : Tok) : Bool :=
+  !t.text.isEmpty ||
+  match t.ty with
+  | .EOF | .MacroSep | .MacroStringEmpty | .DatalinesData => true
+  | .SEMI =>
+    c.errAt .MissingExpectedSemiOrEOF t.byte || t.byte == c.n
+    || (prevTy c == some .DatalinesData && c.errAt .UnterminatedDatalines t.byte)
+  | .StringExprEnd => t.byte == c.n && c.errAt .UnterminatedStringLiteral c.n
+  | ty =>
+    match missingKindOf ty with
+    | some k => expectable ty && c.errAt k t.byte
+    | none => false
+
+/-! ## the predicate -/
+
+/-- every token with its context -/
+def contexts (n : Nat) (errs : List ErrInfo) : List Tok → List Tok → List (Ctx × Tok)
+  | _, [] => []
+  | before, t :: after => (⟨n, errs, before, after⟩, t) :: contexts n errs (t :: before) after
+
+def dedup (l : List String) : List String := l.foldl (fun acc x => if acc.contains x then acc else acc ++ [x]) []
+
+end C06
+
+open C06 in
+def C06 (s : List Char) (d : Dump) : Verdict :=
+  match toksOf s d.toks with
+  | none => ["token-text"]
+  | some toks =>
+    let cts := contexts (utf8Len s) d.errs [] toks
+    dedup (cts.filterMap fun (c, t) => rowViolation c t)
+    ++ clause "channel-partition" (cts.all fun (c, t) => channelOk c t)
+    ++ clause "empty-token" (cts.all fun (c, t) => emptyOk c t)
 
 end Spec
 end SasLexer
